@@ -102,7 +102,8 @@ class Gen:
             if k in seen:
                 continue
             seen.add(k)
-            out.append((k, self.string()))
+            # an attribute value may be the empty string (keys may not: the empty key is dictionary entry 0 = "no string")
+            out.append((k, '' if self.r.random() < 0.08 else self.string()))
         return out
 
     def tree(self, depth=0, big=False, wide=False):
